@@ -130,7 +130,9 @@ impl XCompoundSpec {
         }
         let mut ret = binding.clone();
         for (arg, param) in args.iter().zip(self.fields.iter()) {
-            let t = param.type_.resolve_bind(&ret, Some(tail));
+            // the generics bound so far must not be substituted into the field type: `ret.mix` below
+            // joins the bindings of all fields with `common_type`
+            let t = param.type_.resolve_bind(binding, Some(tail));
             ret = ret.mix(&t.bind_in_assignment(arg)?)?;
         }
         Some(ret)
